@@ -17,11 +17,13 @@ variable {α δ : Type} [Zero α] [DecidableEq α]
 
 /-- `to_hdf5` succeeds on the domain and writes exactly the tree `written`. -/
 theorem toH5_written (c : Utf8) (dc : DateC δ) (t : Src α) (genBy : String) (date : Option δ) (now : δ)
-    (csr csc : CS α) (hv : Views t csr csc) (hmo : mdDomain t.omd = true) (hms : mdDomain t.smd = true) :
+    (csr csc : CS α) (hw : SrcWF t) (hv : Views t csr csc) (hmo : mdDomain t.omd = true)
+    (hms : mdDomain t.smd = true) :
     toH5 c dc t genBy date now csr csc = .ok (written c dc t genBy date now csr csc) := by
+  have hsc := views_sameCount t csr csc hw hv
   unfold toH5
   simp only [axGrp_ok c t.obs t.omd t.ogmd _ csr hmo rfl hv.csrWF.sameLen,
-    axGrp_ok c t.samp t.smd t.sgmd _ csc hms hv.sameCount (hv.cscWF.sameLen.trans hv.sameCount),
+    axGrp_ok c t.samp t.smd t.sgmd _ csc hms hsc (hv.cscWF.sameLen.trans hsc),
     bind, Except.bind, pure, Except.pure]
   rfl
 
@@ -84,7 +86,7 @@ theorem specDecode_written (c : Utf8) (hc : c.RT) (dc : DateC δ) (t : Src α) (
       .ok (transposeGrid t.samp.length t.rows) := by
     unfold specView
     rw [readView_own csc _ _ hv.cscMajor hv.cscMinor]
-    simp only [bind, Except.bind, wfb_of_WF hv.cscWF, hv.sameCount, beq_self_eq_true, Bool.and_self,
+    simp only [bind, Except.bind, wfb_of_WF hv.cscWF, views_sameCount t csr csc hw hv, beq_self_eq_true, Bool.and_self,
       if_true, hv.cscDense]
   unfold specDecode
   simp only [hshape, hnnz, bind, Except.bind]
@@ -101,14 +103,14 @@ theorem toH5_specWF (c : Utf8) (hc : c.RT) (dc : DateC δ) (t : Src α) (genBy :
     (now : δ) (csr csc : CS α) (hw : SrcWF t) (hv : Views t csr csc)
     (hmo : mdDomain t.omd = true) (hms : mdDomain t.smd = true) :
     ∃ h, toH5 c dc t genBy date now csr csc = .ok h ∧ holds c t h = true := by
-  refine ⟨_, toH5_written c dc t genBy date now csr csc hv hmo hms, ?_⟩
+  refine ⟨_, toH5_written c dc t genBy date now csr csc hw hv hmo hms, ?_⟩
   have hz := nnz_true t csr csc hv
   simp only [holds, clauses, List.all_cons, List.all_nil, Bool.and_true, Bool.and_eq_true]
   refine ⟨written_attrs c dc t genBy date now csr csc hv, by simpa using written_groups c dc t genBy date now csr csc,
     written_ids c hc _ _ _ _, written_ids c hc _ _ _ _,
     mdOK_mdTree c hc t.obs t.omd hw.omdLen hmo _ rfl, mdOK_mdTree c hc t.samp t.smd hw.smdLen hms _ rfl,
     written_view c _ _ _ csr _ _ _ hv.csrWF hv.csrNZ hv.csrMajor hv.csrMinor hz,
-    written_view c _ _ _ csc _ _ _ hv.cscWF hv.cscNZ hv.cscMajor hv.cscMinor (hv.sameCount.trans hz),
+    written_view c _ _ _ csc _ _ _ hv.cscWF hv.cscNZ hv.cscMajor hv.cscMinor ((views_sameCount t csr csc hw hv).trans hz),
     written_decode c hc dc t genBy date now csr csc hw hv⟩
 
 /-- `specDecodeObs = specDecodeSamp = D`, as a statement about `to_hdf5` itself -/
@@ -117,7 +119,7 @@ theorem specDecode_toH5 (c : Utf8) (hc : c.RT) (dc : DateC δ) (t : Src α) (gen
     (hmo : mdDomain t.omd = true) (hms : mdDomain t.smd = true) :
     (toH5 c dc t genBy date now csr csc).bind (specDecode c) =
       .ok { obs := t.obs, samp := t.samp, byObs := t.rows, bySamp := t.rows } := by
-  rw [toH5_written c dc t genBy date now csr csc hv hmo hms]
+  rw [toH5_written c dc t genBy date now csr csc hw hv hmo hms]
   exact specDecode_written c hc dc t genBy date now csr csc hw hv
 
 /-- `compress` is not an input of the logical tree: whatever its value, the tree is `toH5 …`.
